@@ -116,6 +116,13 @@ def cases(tier, rng):
                    "send @b;6f6b", "wire a", "wire b"]
             out.append("b%d sock ROUTER / %s" % (k, " / ".join(ops)))
             k += 1
+    # a send that is abandoned while the connection does not take bytes leaves the peer connected and routable
+    for polls in (1, 2, 3):
+        for size in (1, 70000):
+            ops = ["attach a DEALER", "attach b DEALER", "wmode a stall", "sendp %d @a;%s" % (polls, W.tok(b"x" * size)), "wmode a all",
+                   "send @a;6f6b", "wire a", "wire b", "feed a " + W.tok(W.msg([b"hi"])), "recv"]
+            out.append("a%d sock ROUTER / %s" % (k, " / ".join(ops)))
+            k += 1
     # identities "just ahead" of the last generated one (what a counter-like generator would hand out next) announced by
     # some peers, then peers that announce none: a generated identity must never collide with one in use
     for pt in ("DEALER", "REQ"):
@@ -135,7 +142,7 @@ def cases(tier, rng):
 
 
 def compare_filter(line):
-    return not line.startswith(("j", "n", "b"))      # the model assumes distinct identities and writers that accept everything
+    return not line.startswith(("j", "n", "b", "a"))      # the model assumes distinct identities and writers that accept everything
 
 
 def norm_impl(o, line):
@@ -146,6 +153,16 @@ def judge(line, obs, orc):
     if S.bad_obs(obs):
         return "implementation " + str(obs)[:80]
     t, po = S.pair_ops_obs(line, obs)
+    if line.startswith("a"):
+        snd = [tk for op, tk in po if op[0] == "send"][0]
+        wa = [tk for op, tk in po if op[0] == "wire" and op[1] == "a"][0].split("=", 1)[1]
+        wb = [tk for op, tk in po if op[0] == "wire" and op[1] == "b"][0].split("=", 1)[1]
+        rc = [tk for op, tk in po if op[0] == "recv"][0]
+        if snd != "s=ok" or not wa.endswith(S.enc([b"ok"])) or wb != "-":
+            return "after an abandoned send the peer is no longer routable: %s wire a=...%s wire b=%s" % (snd, wa[-20:], wb[:20])
+        if rc != "r=ok:@a;6869":
+            return "after an abandoned send the peer's messages are no longer received under its label: " + rc
+        return None
     if line.startswith("n"):
         names = [op[1] for op, tk in po if op[0] == "attach"]
         for op, tk in po:
